@@ -234,7 +234,7 @@ static void run_history(int family /*0 fast,1 HC*/, int nops, const char* mode, 
  * Block layout: [64 KB table: fixed keys + FIXED values][128 KB filler][64 KB table: same keys at the same places + FRESH values], so that a history
  * mapped 192 KB too low still matches (same keys, same fixed values) but the bytes really referenced differ.  Every phase-2 block is decoded with the
  * real decoder against the previous block (its declared history). */
-static u64 n_xs_hist, n_xs_renorm;
+static u64 n_xs_hist, n_xs_renorm, n_hc_wraps;
 static void long_stream_renorm_scenario_x(int withResets);
 static void long_stream_renorm_scenario(void) { long_stream_renorm_scenario_x(0); }
 /* withResets: the first gigabyte of index is accumulated by many short sessions separated by LZ4_resetStream_fast (the index survives a fast reset while it is
@@ -480,6 +480,39 @@ static void xstream_history(int thorough)
     free(arena); free(H); LZ4_freeStream(st); LZ4_freeStream(dstream);
 }
 
+/* One HC context reused through fast resets for more than 1 GB of cumulative input (C18): LZ4HC_init_internal then clears its tables and restarts the
+ * indexes at 64 KB; whatever survives that clearing points INTO the inputs of the second lap.  Lap 1: a handful of records right after the initialisation;
+ * then cheap fillers up to > 1 GB; lap 2: the same records again (same sizes, so the same indexes) and variants of them.  Every output is decoded alone. */
+static void hc_index_wrap_reuse_scenario(int viaStream)
+{
+    enum { NR = 7, FILL = 64 << 20 };
+    LZ4_streamHC_t* hs = LZ4_createStreamHC(); u8* recs[NR]; size_t rn[NR]; int lv[NR]; u8* filler = xalloc(FILL); u8* dst = xalloc((size_t)LZ4_compressBound(FILL)); int lap, i, f; unsigned long long fed = 0;
+    static const int levels[] = {3, 9, 12, 4, 10, 2, 6};
+    memset(filler, 'z', FILL);
+    for (i = 0; i < NR; i++) { size_t j; rn[i] = 2000 + rndn(14000); recs[i] = xalloc(rn[i]); lv[i] = levels[i]; for (j = 0; j < rn[i]; j++) recs[i][j] = (j % 16 < 6) ? (u8)("key=id"[j % 16]) : (u8)rnd(); }
+    for (lap = 0; lap < 2; lap++) {
+        for (i = 0; i < NR; i++) {
+            int r; u8* src = recs[i];
+            if (lap == 1 && i >= 4) { size_t j; for (j = rn[i] / 2; j < rn[i]; j++) if (rndp(30)) src[j] = (u8)rnd(); }          /* second lap: some records are variants */
+            if (viaStream) { LZ4_resetStreamHC_fast(hs, lv[i]); r = LZ4_compress_HC_continue(hs, (const char*)src, (char*)dst, (int)rn[i], LZ4_compressBound((int)rn[i])); n_resets++; }
+            else r = LZ4_compress_HC_extStateHC_fastReset(hs, (const char*)src, (char*)dst, (int)rn[i], LZ4_compressBound((int)rn[i]), lv[i]);
+            n_calls++; fed += rn[i];
+            if (r <= 0) { rec_t rr; rec_begin(&rr, OP_STREAMBLOCK); c_fail(&rr, "continue_failed_at_bound"); continue; }
+            hist_reset(); g_mirrorValid = 0; check_block(1, lv[i], src, rn[i], dst, r, 0);
+        }
+        /* fillers until the NEXT call is the one that finds the index beyond 1 GB (LZ4HC_init_internal: bufferSize + dictLimit > 1 GB): the first record of lap 2 */
+        if (lap == 0) for (f = 0; (unsigned long long)(hs->internal_donotuse.end - hs->internal_donotuse.prefixStart) + hs->internal_donotuse.dictLimit <= (1ull << 30); f++) {
+            int r;
+            if (viaStream) { LZ4_resetStreamHC_fast(hs, 3); r = LZ4_compress_HC_continue(hs, (const char*)filler, (char*)dst, FILL, LZ4_compressBound(FILL)); }
+            else r = LZ4_compress_HC_extStateHC_fastReset(hs, (const char*)filler, (char*)dst, FILL, LZ4_compressBound(FILL), 3);
+            n_calls++; fed += FILL; if (r <= 0) break;
+        }
+    }
+    n_hc_wraps++;
+    for (i = 0; i < NR; i++) free(recs[i]);
+    free(filler); free(dst); LZ4_freeStreamHC(hs);
+}
+
 static void ring_restart_scenario(int family)
 {
     static u8 keys[64][8]; static int keysInit = 0; size_t rec = 12, bs, ring, s0, pos, k; int nblocks, i; u8* ringbuf; u8* dst;
@@ -521,13 +554,14 @@ int main(int argc, char** argv)
     if (!strcmp(mode, "c11")) for (i = 0; i < (thorough ? SH(3000) : 200); i++) ring_restart_scenario(i % 4 == 3);
     if (!strcmp(mode, "c11")) { int reps = thorough ? 3 : 1, q; for (q = 0; q < reps; q++) if (SHARD_IS(q)) long_stream_renorm_scenario(); }
     if (!strcmp(mode, "c18") && SHARD_IS(1)) long_stream_renorm_scenario_x(1);
+    if (!strcmp(mode, "c18")) { if (SHARD_IS(2)) hc_index_wrap_reuse_scenario(0); if (thorough && SHARD_IS(3)) hc_index_wrap_reuse_scenario(1); }
     if (!strcmp(mode, "c11")) { if (SHARD_IS(3)) long_stream_renorm_scenario_hc(thorough ? 2 : 3); if (thorough) { if (SHARD_IS(4)) long_stream_renorm_scenario_hc(3); if (SHARD_IS(5)) long_stream_renorm_scenario_hc(9); } }
     if (!strcmp(mode, "c18")) for (i = 0; i < (thorough ? SH(20000) : 1500); i++) fastreset_history();
     if (!strcmp(mode, "c11") || !strcmp(mode, "c18")) for (i = 0; i < (thorough ? SH(8000) : 700); i++) contig_stream_history(thorough);
     if (!strcmp(mode, "c11") || !strcmp(mode, "c12") || !strcmp(mode, "c18")) for (i = 0; i < (thorough ? SH(8000) : 700); i++) xstream_history(thorough);
     harness_done();
     stat_u("calls", n_calls); stat_u("blocks_checked", n_blocks); stat_u("limited_output_failures", n_fail_ret0); stat_u("saveDict", n_saves); stat_u("loadDict", n_loads); stat_u("attach", n_attach);
-    stat_u("resets", n_resets); stat_u("fastReset_oneshots", n_oneshots); stat_u("continue_destSize", n_destsize); stat_u("ring_wraps", n_wraps); stat_u("streams_beyond_2GiB", n_renorm); stat_u("fastReset_histories", n_fr_hist); stat_u("contiguous_stream_sessions", n_cs_hist); stat_u("contiguous_stream_calls", n_cs_calls); stat_u("contiguous_stream_sessions_on_reused_stream", n_cs_reused); stat_u("contiguous_stream_sessions_starting_with_stale_table", n_cs_stale); stat_u("contiguous_stream_sessions_ended_by_failure", n_cs_failed); stat_u("fastReset_history_calls", n_fr_calls); stat_u("placed_stream_lives", n_xs_hist); stat_u("placed_stream_lives_through_2GiB_rescale", n_xs_renorm); stat_u("placed_stream_ops", n_xs_ops); stat_u("placed_stream_compress_contiguous", n_xs_contig); stat_u("placed_stream_compress_apart", n_xs_apart); stat_u("placed_stream_compress_overlapping_dictionary", n_xs_inside); stat_u("placed_stream_saveDict", n_xs_save); stat_u("placed_stream_loadDict", n_xs_load); stat_u("placed_stream_reset", n_xs_reset); stat_u("placed_stream_attach", n_xs_attach); stat_u("placed_stream_compress_with_attached_dictionary", n_xs_attached_calls); stat_u("placed_stream_lives_ended_by_failure", n_xs_failed); stat_u("records", g_nrecords);
+    stat_u("resets", n_resets); stat_u("fastReset_oneshots", n_oneshots); stat_u("continue_destSize", n_destsize); stat_u("ring_wraps", n_wraps); stat_u("streams_beyond_2GiB", n_renorm); stat_u("fastReset_histories", n_fr_hist); stat_u("contiguous_stream_sessions", n_cs_hist); stat_u("contiguous_stream_calls", n_cs_calls); stat_u("contiguous_stream_sessions_on_reused_stream", n_cs_reused); stat_u("contiguous_stream_sessions_starting_with_stale_table", n_cs_stale); stat_u("contiguous_stream_sessions_ended_by_failure", n_cs_failed); stat_u("fastReset_history_calls", n_fr_calls); stat_u("hc_contexts_reused_beyond_1GiB", n_hc_wraps); stat_u("placed_stream_lives", n_xs_hist); stat_u("placed_stream_lives_through_2GiB_rescale", n_xs_renorm); stat_u("placed_stream_ops", n_xs_ops); stat_u("placed_stream_compress_contiguous", n_xs_contig); stat_u("placed_stream_compress_apart", n_xs_apart); stat_u("placed_stream_compress_overlapping_dictionary", n_xs_inside); stat_u("placed_stream_saveDict", n_xs_save); stat_u("placed_stream_loadDict", n_xs_load); stat_u("placed_stream_reset", n_xs_reset); stat_u("placed_stream_attach", n_xs_attach); stat_u("placed_stream_compress_with_attached_dictionary", n_xs_attached_calls); stat_u("placed_stream_lives_ended_by_failure", n_xs_failed); stat_u("records", g_nrecords);
     stat_u("cfails", (u64)g_cfails);
     free(dictbuf); free(g_hist); free(g_ring);
     return g_cfails ? 1 : 0;
